@@ -36,6 +36,10 @@ var Def = driver.PropDef{
 }
 
 func Run(c *core.Ctx) {
+	withViews(c, run)
+}
+
+func run(c *core.Ctx) {
 	ref := xmodemTable()
 	crcFns := map[string]*core.Fn{}
 	for _, p := range []string{pkgCommon, pkgLat, pkgCluster} {
@@ -64,6 +68,12 @@ func Run(c *core.Ctx) {
 
 	checkpointKey(c)
 	latencyKey(c, crcFns[pkgLat])
+	// (checkpointKey and latencyKey stop at the first construct they cannot read:
+	// what they did not reach must be shown on another view of the tree)
+	c.Expect("R4.range", 4)
+	c.Expect("R4.prefix", 2)
+	c.Expect("R4.filter", 2)
+	c.Expect("R5.latency", 3)
 }
 
 func short(p string) string {
@@ -168,6 +178,65 @@ func defsOf(info *types.Info, root ast.Node, obj types.Object) (rhs []ast.Expr, 
 	return
 }
 
+// deadLits: function literals bound to a local that is never used again except
+// in `_ = f` (what is left of a closure argument once the calls through it were
+// expanded in place).
+func deadLits(info *types.Info, body ast.Node) map[*ast.FuncLit]bool {
+	out := map[*ast.FuncLit]bool{}
+	bind := func(o types.Object, v ast.Expr) {
+		lit, ok := ast.Unparen(v).(*ast.FuncLit)
+		if !ok || o == nil {
+			return
+		}
+		live := false
+		var stack []ast.Node
+		ast.Inspect(body, func(n ast.Node) bool {
+			if n == nil {
+				stack = stack[:len(stack)-1]
+				return true
+			}
+			stack = append(stack, n)
+			if id, isId := n.(*ast.Ident); isId && info.Uses[id] == o {
+				blank := false
+				if len(stack) >= 2 {
+					if as, isAs := stack[len(stack)-2].(*ast.AssignStmt); isAs && len(as.Lhs) == 1 && len(as.Rhs) == 1 && as.Rhs[0] == ast.Expr(id) {
+						if b, isB := as.Lhs[0].(*ast.Ident); isB && b.Name == "_" {
+							blank = true
+						}
+					}
+				}
+				if !blank {
+					live = true
+				}
+			}
+			return true
+		})
+		if !live {
+			out[lit] = true
+		}
+	}
+	ast.Inspect(body, func(n ast.Node) bool {
+		switch s := n.(type) {
+		case *ast.AssignStmt:
+			if len(s.Lhs) == len(s.Rhs) && s.Tok == token.DEFINE {
+				for i, l := range s.Lhs {
+					if id, ok := l.(*ast.Ident); ok {
+						bind(info.Defs[id], s.Rhs[i])
+					}
+				}
+			}
+		case *ast.ValueSpec:
+			if len(s.Names) == len(s.Values) {
+				for i, nm := range s.Names {
+					bind(info.Defs[nm], s.Values[i])
+				}
+			}
+		}
+		return true
+	})
+	return out
+}
+
 // ---------------------------------------------------------------------------
 // R2 update step, R1 table and masks
 
@@ -176,7 +245,11 @@ func step(c *core.Ctx, fn *core.Fn, name string) *types.Var {
 	var as *ast.AssignStmt
 	var idx *ast.IndexExpr
 	count := 0
+	dead := deadLits(info, fn.Decl.Body)
 	ast.Inspect(fn.Decl.Body, func(n ast.Node) bool {
+		if lit, isLit := n.(*ast.FuncLit); isLit && dead[lit] {
+			return false // never called: what it contains is not executed
+		}
 		s, ok := n.(*ast.AssignStmt)
 		if !ok {
 			return true
@@ -352,6 +425,14 @@ func stepLoop(c *core.Ctx, fn *core.Fn, name string, as *ast.AssignStmt, b ast.E
 			}
 		}
 		return false
+	}
+	// the byte may be named first inside the loop (`b := buf[i]`), as left by expanding a step(crc, b) helper
+	if o := objOf(info, b); o != nil && loop != nil {
+		if rhs, other := defsOf(info, loop, o); len(rhs) == 1 && other == 0 && rhs[0] != nil {
+			if r2, _ := defsOf(info, fn.Decl.Body, o); len(r2) == 1 {
+				b = strip(info, rhs[0])
+			}
+		}
 	}
 	switch l := loop.(type) {
 	case *ast.ForStmt:
